@@ -6,7 +6,6 @@ import (
 	"fmt"
 	"math/big"
 
-	ethcommon "github.com/ethereum/go-ethereum/common"
 	"github.com/ethereum/go-ethereum/core/types"
 	"github.com/polynetwork/poly/common/config"
 	hscommon "github.com/polynetwork/poly/native/service/header_sync/common"
@@ -150,5 +149,3 @@ func rawMain(w *hsenv.Sim, h uint64) string {
 	}
 	return ""
 }
-
-var _ = ethcommon.Hash{}
